@@ -171,7 +171,10 @@ class Tokenizer:
             self.consume(self.pop())
             self.push(self._special_characters[char])
 
-        elif char in ascii_letters:
+        elif char in ascii_letters or (
+            char in digits and type(self.peek(-1)) is Colon
+        ):
+            # Labels may also start with a digit (e.g., "1a").
             self.identifier_or_label()
 
         elif char in digits or (
